@@ -108,6 +108,12 @@ class _Scalar(T):
         self.kind = kind
 
 
+class _NanRealT(T):
+    kind = "nanreal"
+
+
+NanRealT = _NanRealT()  # float or NaN
+
 Int = _Scalar("int")
 Real = _Scalar("real")
 Bool = _Scalar("bool")
@@ -350,3 +356,24 @@ def forall_keys_kept(new, old, removed_key):
         if k in old and _struct(old[k]) != _struct(new[k]):
             return False
     return True
+
+
+CHECK_FAILURES = []
+
+
+def check(name, cond):
+    """harness-level obligation: natively records a failure, symbolically becomes a proof obligation"""
+    if not cond:
+        CHECK_FAILURES.append(name)
+    return bool(cond)
+
+
+def assume(cond):
+    """harness-level assumption; natively an inconsistent witness aborts the replay"""
+    if not cond:
+        raise AssumptionViolated()
+    return True
+
+
+class AssumptionViolated(Exception):
+    pass
